@@ -97,6 +97,20 @@ theorem containsClock_iff (iv : TimeInterval) (k : Clock)
   · rintro ⟨⟨⟨⟨a, b⟩, c⟩, d⟩, e⟩; exact ⟨a, b, c, d, e⟩
   · rintro ⟨a, b, c, d, e⟩; exact ⟨⟨⟨⟨a, b⟩, c⟩, d⟩, e⟩
 
+/-- The computable form of the specification used by the driver is the declarative one. -/
+theorem specB_iff (iv : TimeInterval) (c : Civil) (wd mod : Int) :
+    specB iv c wd mod = true ↔ Spec iv c wd mod := by
+  unfold specB
+  simp only [Bool.and_eq_true]
+  rw [inField_iff _ _ (fun r => r.lo ≤ mod ∧ mod < r.hi) (fun r => by simp),
+    inField_iff _ _ (DomSpec (daysInMonth c.year c.month) c.day) (fun r => by simp [domSpecB, DomSpec]),
+    inField_iff _ _ (fun r => r.lo ≤ c.month ∧ c.month ≤ r.hi) (fun r => by simp),
+    inField_iff _ _ (fun r => r.lo ≤ wd ∧ wd ≤ r.hi) (fun r => by simp),
+    inField_iff _ _ (fun r => r.lo ≤ c.year ∧ c.year ≤ r.hi) (fun r => by simp)]
+  constructor
+  · rintro ⟨⟨⟨⟨a, b⟩, c⟩, d⟩, e⟩; exact ⟨a, b, c, d, e⟩
+  · rintro ⟨a, b, c, d, e⟩; exact ⟨⟨⟨⟨a, b⟩, c⟩, d⟩, e⟩
+
 /-- Decomposition of local seconds into day number, minute of day, second. -/
 theorem local_split (ls : Int) :
     ls = ls / 86400 * 86400 + (ls % 86400 / 3600 * 60 + ls % 86400 % 3600 / 60) * 60 + ls % 60 ∧
